@@ -76,6 +76,9 @@ def jobs_for(exe, th, seed):
         exh("local", "join+", 5, 16)
         exh("local", "two+", 5, 16)
         exh("local", "expire+", 5, 16)
+        exh("local", "window+", 7, 32)
+        exh("local", "drain+", 6, 16)
+        exh("ipc", "window", 5, 8)
         exh("ipc", "core+", 5, 32)
         exh("ipc", "data", 5, 16)
         exh("ipc", "join", 4, 8)
@@ -91,6 +94,8 @@ def jobs_for(exe, th, seed):
         exh("local", "join", 4, 4)
         exh("local", "two", 4, 4)
         exh("local", "expire", 4, 4)
+        exh("local", "window", 6, 8)     # subscriber acting inside the publisher's blocking_send window
+        exh("local", "drain", 5, 4)      # publishers vanish with undelivered samples, then the subscriber drains
         # ipc is I/O bound (files in /dev/shm): a few milliseconds per history on an idle machine, hundreds under load
         exh("ipc", "core", 2, 4)
         exh("ipc", "data", 2, 2)
@@ -150,6 +155,27 @@ def run_pipelines(jobs, driver, timeout=1500, keep=20000):
     return res
 
 
+def window_history(b, m):
+    """Full buffer + full borrow; the handler of the next send drops one sample and receives one, then answers
+    Retry (the subscriber acts between the publisher's reclaim and its push); then the subscriber releases and
+    receives everything (B + M + 1 releases since the last reclaim: the last one needs the + 1 slot of the
+    completion queue); then one more send and receive, and the exhaustion probe."""
+    ops = ["pc_2_1_DRrd", "sc_-_-"] + ["sn_0"] * b
+    held, nxt, buf = [], 0, b
+    for _ in range(m):
+        ops += ["rx_0", "sn_0"]; held.append(nxt); nxt += 1
+    ops.append("sn_0")                       # handler: drop the oldest, receive one, retry -> delivered
+    held.pop(0); held.append(nxt); nxt += 1
+    for _ in range(b + m):
+        if held:
+            ops.append("rd_%d" % held.pop(0))
+        ops.append("rx_0")
+        if buf > 0:
+            held.append(nxt); nxt += 1; buf -= 1
+    ops += ["sn_0", "rx_0", "ex_0"]
+    return " ".join(ops)
+
+
 def compute(ctx):
     """Builds driver + harness, runs all pipelines, returns the raw result (JSON-able)."""
     t0 = time.time()
@@ -165,6 +191,14 @@ def compute(ctx):
     cleanup()
     jobs = [("regression:%s:%s" % (what, variant), [exe, "hist", variant, cfg] + ops.split())
             for what, variant, cfg, ops in REGRESSIONS]
+    for b in (1, 2, 3):
+        for m in (1, 2, 3):
+            jobs.append(("regression:window B=%d M=%d" % (b, m), [exe, "hist", "local", "1,1,%d,%d,0,0,2" % (b, m)] + window_history(b, m).split()))
+    jobs.append(("regression:window B=1 M=1 ipc", [exe, "hist", "ipc", "1,1,1,1,0,0,2"] + window_history(1, 1).split()))
+    jobs.append(("regression:two publishers dropped with undelivered samples, then drained", [exe, "hist", "local", "1,2,3,2,0,0,3"] +
+                 "sc_-_- pc_1_0_- pc_1_0_- su_0 sn_0 sn_0 sn_1 sn_1 pd_0 pd_1 rx_0 rx_0 rx_0 rx_0 rx_0".split()))
+    jobs.append(("regression:one publisher slot re-created three times, then drained", [exe, "hist", "local", "1,1,3,3,0,0,4"] +
+                 "sc_-_- pc_1_0_- su_0 sn_0 sn_0 pd_0 pc_1_0_- su_0 sn_1 sn_1 pd_1 pc_1_0_- su_0 sn_2 sn_2 pd_2 rx_0 rx_0 rx_0 rx_0 rx_0 rx_0 rx_0".split()))
     jobs += jobs_for(exe, th, ctx.seed)
     r = run_pipelines(jobs, driver, timeout=3000 if th else 900)
     cleanup()
@@ -325,11 +359,11 @@ def run(ctx):
         exe = os.path.join(tdir, "c01")
         sjobs = []
         for i in range(6):     # saturating / draining / churning random histories with fresh seeds, both sizes
-            sjobs.append(("search:rnd:%d" % i, [exe, "rnd", "local", "80", str(i), "6", str(int(ctx.seed) + 7919 * (i + 1)), "200"] + (["big"] if i % 2 else [])))
-        for su in ("data", "core"):
+            sjobs.append(("search:rnd:%d" % i, [exe, "rnd", "local", "80", str(i), "6", str(int(ctx.seed) + 7919 * (i + 1)), "120"] + (["big"] if i % 2 else [])))
+        for su in ("window", "drain", "expire"):
             for i in range(4):
                 sjobs.append(("search:exh:%s:%d" % (su, i), [exe, "exh", "local", su, "4", str(i), "4", str(ctx.seed)]))
-        sr = run_pipelines(sjobs, driver, timeout=600)
+        sr = run_pipelines(sjobs, driver, timeout=150)    # bounded: the whole check stays below five minutes
         cleanup()
         found = [m for m in sr["mismatch_lines"] if "kind=spec" in m[2] and pid in props_of(m[2])
                  and not any(k.get("key") == (re.search(r" key=(\S+)", m[2]) or [None, None])[1] for k in ctx.known)]
@@ -346,7 +380,7 @@ def run(ctx):
         lbl, cmd, line = model_mm[0]
         ctx.violation("correspondence model<->implementation broken (the concrete model disagrees with the implementation; %d lines): %s" % (len(model_mm), line[:400]),
                       {"obligation": "G3 correspondence of coq/model/{Conn,Port}.v with iceoryx2 publish-subscribe ports",
-                       "history": f.get("history", []), "harness_cmd": cmd}, no_input=True)
+                       "history": f.get("history", []), "harness_cmd": cmd}, no_input=not mine)
     if not proof_ok and not ctx.violations:
         ctx.violation("proof obligation no longer checks: %s" % ctx.broken,
                       {"broken": ctx.broken, "searched": "all histories above; reference mismatches of this property: %s" % counts}, no_input=True)
